@@ -474,7 +474,7 @@ def end(ctx, res=None):
     instr.release_all_waiters()
     instr.abort_parked_actors()
     for t in list(instr.TRACKED):
-        if t.vf_started:
+        if t.vf_started and "-internal" not in t.vf_role:
             instr._RealThread.join(t, 2.0)
             if t.is_alive():
                 # parked again (e.g. executor never shut down): wake once more
